@@ -160,7 +160,12 @@ func TestC31(t *testing.T) {
 				expect(t, line, want, rejected)
 			},
 			"find": func(t *rapid.T) {
-				texts := renderCode(code)
+				// the texts the search runs over are the ones the UI shows
+				cur, msg := listing(ui)
+				if msg != "" {
+					t.Fatalf("%s", msg)
+				}
+				texts := listingTexts(cur)
 				var pat string
 				switch uniformInt(t, 10, "patKind") {
 				case 0, 1, 2: // literal fragment of an existing line (alphanumerics only)
